@@ -156,9 +156,53 @@ func RevDecompress(b []byte) ([]byte, error) {
 	return out, nil
 }
 
+// RLECompress is the harness's run-length algorithm (C10's compression bombs): magic
+// "RL", then (uvarint run length, byte) pairs. A run of n equal bytes costs <= 4 bytes.
+func RLECompress(b []byte) []byte {
+	out := []byte{'R', 'L'}
+	for i := 0; i < len(b); {
+		j := i
+		for j < len(b) && b[j] == b[i] {
+			j++
+		}
+		out = binary.AppendUvarint(out, uint64(j-i))
+		out = append(out, b[i])
+		i = j
+	}
+	return out
+}
+
+// RLEMaxInflate caps what the harness itself is willing to inflate.
+const RLEMaxInflate = 256 << 20
+
+// RLEDecompress inverts RLECompress.
+func RLEDecompress(b []byte) ([]byte, error) {
+	if len(b) < 2 || b[0] != 'R' || b[1] != 'L' {
+		return nil, errors.New("rle: bad magic")
+	}
+	b = b[2:]
+	var out []byte
+	for len(b) > 0 {
+		n, k := binary.Uvarint(b)
+		if k <= 0 || k >= len(b) || n == 0 {
+			return nil, errors.New("rle: bad run")
+		}
+		if uint64(len(out))+n > RLEMaxInflate {
+			return nil, errors.New("rle: harness inflate cap")
+		}
+		c := b[k]
+		b = b[k+1:]
+		for ; n > 0; n-- {
+			out = append(out, c)
+		}
+	}
+	return out, nil
+}
+
 var comps = map[string]*Comp{
 	"gzip": {Name: "gzip", Compress: GzipCompress, Decompress: GzipDecompress},
 	"rev":  {Name: "rev", Compress: RevCompress, Decompress: RevDecompress},
+	"rle":  {Name: "rle", Compress: RLECompress, Decompress: RLEDecompress},
 }
 
 // CompByName returns the algorithm or nil ("" and "identity" mean none).
